@@ -331,21 +331,56 @@ func (w *world) famState(fam string) string {
 			}
 			return itemEst(it).String()
 		})
-		b := w.kvStr(h, hasPrefix("est"), func(_, v []byte) string {
-			it, err := stackitem.Deserialize(v)
-			if err != nil {
-				return "?" + hx.Hex(v)
+		// The `est‖cid‖h20 -> []epoch` records are internal bookkeeping of updateEstimations: no read method exposes
+		// them, and repeated or dead epochs in the list change nothing that can be observed (deleting an absent key
+		// is a no-op). They are therefore printed in a canonical form: the sorted set of the listed epochs for
+		// which this node's estimation of this container is still stored; records with nothing left are omitted.
+		// (A listed epoch that is missing although its estimation is stored — the thing that would break the
+		// put-time cleanup — still shows.)
+		stored := map[string]bool{} // cid ‖ h10 ‖ "/" ‖ epoch
+		scan := w.c.Scan(h)
+		for _, kv := range scan {
+			if bytes.HasPrefix(kv.K, []byte("cnr")) && len(kv.K) >= 45 {
+				n := len(kv.K)
+				stored[string(kv.K[n-42:])+"/"+decInt(kv.K[3:n-42]).String()] = true
 			}
-			var s []string
+		}
+		var recs []string
+		for _, kv := range scan {
+			if !bytes.HasPrefix(kv.K, []byte("est")) {
+				continue
+			}
+			it, err := stackitem.Deserialize(kv.V)
+			if err != nil {
+				recs = append(recs, hx.Hex(kv.K)+":?"+hx.Hex(kv.V))
+				continue
+			}
+			var eps []*big.Int
 			for _, x := range itemArr(it) {
 				z, _ := x.TryInteger()
+				dup := false
+				for _, y := range eps {
+					dup = dup || y.Cmp(z) == 0
+				}
+				if dup {
+					continue
+				}
+				if len(kv.K) == 55 && !stored[string(kv.K[3:45])+"/"+z.String()] {
+					continue
+				}
+				eps = append(eps, z)
+			}
+			if len(eps) == 0 {
+				continue
+			}
+			sort.Slice(eps, func(i, j int) bool { return eps[i].Cmp(eps[j]) < 0 })
+			var s []string
+			for _, z := range eps {
 				s = append(s, z.String())
 			}
-			if len(s) == 0 {
-				return "-"
-			}
-			return strings.Join(s, ",")
-		})
+			recs = append(recs, hx.Hex(kv.K)+":"+strings.Join(s, ","))
+		}
+		b := "[" + strings.Join(recs, ";") + "]"
 		var live []string
 		for _, kv := range w.c.Scan(h) {
 			if len(kv.K) == 33 && kv.K[0] == 'x' {
